@@ -30,6 +30,9 @@ def run(tier, seed, t0):
             jobs.append(j("cmp-default128-%s" % be, "optim", be, ["--seed", seed, "--lambda", 128, "--threads", "4,16,32", "--rounds", 1, "--slowjobs", 0], weight=16, timeout=3600))
             for sd in range(3):
                 jobs.append(j("cmp-detached-%s-s%d" % (be, sd), "optim", be, ["--seed", seed + sd, "--detached", 1, "--threads", "2,3,4,6,8,16,32", "--rounds", 10, "--slowjobs", 0], weight=16, timeout=3600))
+            ncpu = os.cpu_count() or 1
+            for mask, th in ((",".join(str(c) for c in range(0, ncpu, 4)) if ncpu >= 8 else "0", "4,8,16"), (",".join(str(c) for c in range(1, ncpu, 2)) if ncpu >= 4 else "0", "8"), (str(min(5, ncpu - 1)), "6")):
+                jobs.append(j("affinity-%s-%s" % (be, mask.replace(",", "_")), "optim", be, ["--seed", seed + 4, "--threads", th, "--rounds", 6, "--slowjobs", 0, "--affinity", mask, "--keygen", 0], weight=4, timeout=3600))
             jobs.append(j("tsan-detached-%s" % be, "tsan", be, ["--seed", seed, "--detached", 1, "--threads", "2,6", "--rounds", 4, "--slowjobs", 0], tool="tsan", weight=8, timeout=3600))
             jobs.append(j("tsan-%s" % be, "tsan", be, ["--seed", seed, "--threads", "2,8,16", "--rounds", 3, "--slowjobs", 0], tool="tsan", weight=8, timeout=3600))
             jobs.append(j("helgrind-%s" % be, "vg", be, ["--seed", seed, "--threads", "4", "--rounds", 2, "--slowjobs", 0, "--n", 8, "--warm", 1, "--keygen", 1 if be == "spqlios-fma" else 0], tool="helgrind", weight=4, timeout=7200))
@@ -50,6 +53,13 @@ def run(tier, seed, t0):
         jobs.append(j("longrun-nayuki-portable", "optim", "nayuki-portable", ["--seed", seed + 2, "--threads", "1", "--rounds", 1, "--keygen", 0, "--n", 8, "--longrun", 3000], weight=1, timeout=3600))
         for be in vbuild.BACKENDS:
             jobs.append(j("cmp-detached-%s" % be, "optim", be, ["--seed", seed, "--detached", 1, "--threads", "2,4,6,8,16", "--rounds", 6, "--slowjobs", 0], weight=8))
+        # CPU affinity masks: with holes, a single CPU, a contiguous block
+        ncpu = os.cpu_count() or 1
+        holes = ",".join(str(c) for c in range(0, ncpu, 4)) if ncpu >= 8 else "0"
+        odd = ",".join(str(c) for c in range(1, ncpu, 2)) if ncpu >= 4 else "0"
+        for k, (be, mask, th) in enumerate([("spqlios-fma", holes, "4,8"), ("spqlios-avx", odd, "8"), ("fftw", holes, "4"), ("nayuki-avx", odd, "6"),
+                                            ("spqlios-fma", str(min(3, ncpu - 1)), "4"), ("nayuki-portable", "%d,%d" % (min(2, ncpu - 1), min(3, ncpu - 1)), "5")]):
+            jobs.append(j("affinity-%s-%s" % (be, mask.replace(",", "_")), "optim", be, ["--seed", seed + 4 + k, "--threads", th, "--rounds", 3, "--slowjobs", 0, "--affinity", mask, "--keygen", 0], weight=4))
         jobs.append(j("tsan-nayuki-portable", "tsan", "nayuki-portable", ["--seed", seed, "--threads", "2,8", "--rounds", 2, "--slowjobs", 0], tool="tsan", weight=6))
         jobs.append(j("tsan-fftw", "tsan", "fftw", ["--seed", seed, "--threads", "2,8", "--rounds", 3, "--slowjobs", 0], tool="tsan", weight=6))
         jobs.append(j("helgrind-spqlios-fma", "vg", "spqlios-fma", ["--seed", seed, "--threads", "3", "--rounds", 1, "--slowjobs", 0, "--n", 8, "--warm", 1, "--keygen", 0], tool="helgrind", weight=4))
